@@ -984,3 +984,26 @@ Theorem ixfr_sections_applied_any : forall fin secs z0 z1 z' ser ws,
   exists n, inbound_xfr z0 tIXFR (Some ser) false ws = (Done z', n).
 Proof. exact XfrInversionGen.ixfr_sections_applied_any. Qed.
 Print Assumptions ixfr_sections_applied_any.
+
+Theorem axfr_outcome_dichotomy : forall fin z0 ser ws rest,
+  chunking tAXFR (soa_rr fin :: rest) ws -> Forall XfrInversion.wire_rec rest ->
+  (exists e n, inbound_xfr z0 tAXFR ser false ws = (Error e z0, n)) \/
+  (exists B b extra z' n,
+     inbound_xfr z0 tAXFR ser false ws = (Done z', n) /\
+     rest = B ++ soa_rr b :: extra /\ Forall XfrGlue.okrec B /\ v_soa b = v_soa fin /\
+     zeq z' (zput soakey (v_ttl b, [v_soa b]) (XfrDiff.adds [] (XfrGlue.erase B)))).
+Proof. exact XfrInversion.axfr_outcome_dichotomy. Qed.
+Print Assumptions axfr_outcome_dichotomy.
+
+Theorem ixfr_outcome_dichotomy_any : forall fin z0 ser ws rest,
+  ttl_ok (v_ttl fin) -> v_serial fin <> ser -> serial_lt (v_serial fin) ser = false ->
+  chunking tIXFR (soa_rr fin :: rest) ws -> Forall XfrInversionGen.any_rec rest ->
+  match rest with x :: _ => exists b, x = soa_rr b /\ ttl_ok (v_ttl b) | [] => True end ->
+  (exists e n, inbound_xfr z0 tIXFR (Some ser) false ws = (Error e z0, n)) \/
+  (exists secs z1 b extra z' n,
+     inbound_xfr z0 tIXFR (Some ser) false ws = (Done z', n) /\
+     rest = XfrSections.secs_stream secs ++ soa_rr b :: extra /\ secs <> [] /\ XfrInversionGen.skel_g ser fin secs /\
+     XfrSections.end_serial ser secs = v_serial fin /\ v_soa b = v_soa fin /\
+     XfrInversionGen.m_secs z0 secs = Ok z1 /\ XfrInversionGen.m_soa z1 b = Ok z').
+Proof. exact XfrInversionGen.ixfr_outcome_dichotomy_any. Qed.
+Print Assumptions ixfr_outcome_dichotomy_any.
